@@ -25,6 +25,26 @@ NA = {
 PENDING = "check not built yet in this round (planned: DESIGN.md section 5)"
 
 CHECKS = {
+    "C18": dict(
+        engine="E1 + E2 + E5 client threads",
+        category="exploration",
+        text="Three kinds of seeded case. sched: one workload (cx, sjoin, bounds/area/length, "
+             "intersects_bounds, pack_partitions, pack_partitions_to_parquet, read_parquet_dask+cx) on the "
+             "reference schedule and under K seeded schedules (1..16 workers; random / PCT / stalled; "
+             "line-level pre-emption inside tasks in fine mode) - identical results and identical stored "
+             "datasets required. clients: 2..6 logical client tasks share one cold geometry array / "
+             "HilbertRtree / GeoDataFrame / DaskGeoDataFrame and issue read-only operations (incl. "
+             "pickle.dumps) under line-level pre-emption decided by the seeded scheduler; each call must "
+             "equal the result on a fresh single-threaded twin and none may raise. numba: thread-count "
+             "sweep {1,2,4,16} of the prange/parallel kernels, labelled as a sweep, not a controlled "
+             "schedule.",
+        design_ref="DESIGN.md 5/C18, 2.3, 2.7",
+        note="pre-emption points are filesystem calls, task boundaries and spatialpandas source lines; "
+             "races inside one numba kernel call or inside pyarrow/pandas C code are below every seam "
+             "(sampled by the sweep only); the simulated executor stands in for dask.threaded",
+        technique="deterministic simulation: baton-passing threads with seeded line-level pre-emption, "
+                  "schedule sweep against a reference schedule",
+    ),
     "C06": dict(
         engine="E2 dask-in-memory (+E3 parquet store for the parquet provenances)",
         category="exploration",
@@ -134,10 +154,10 @@ def main():
         },
         "engines": [
             {"name": "E1 pack-to-storage", "path": "dsim/e1.py",
-             "serves_properties": ["C10", "C19"],
+             "serves_properties": ["C10", "C19", "C18"],
              "kind_free_text": "real pack_partitions_to_parquet on SimFS under the simulated Dask executor"},
             {"name": "E2 dask-in-memory", "path": "dsim/e2.py",
-             "serves_properties": ["C06", "C09"],
+             "serves_properties": ["C06", "C09", "C18"],
              "kind_free_text": "Dask collections executed task by task by the simulated executor, "
                                "compared with the pandas frame they represent"},
         ],
